@@ -22,7 +22,7 @@ returns increasing frequency); each row carries its wavelength, frequency, the v
 extinction law at that wavelength (`law(sed.wav)`: the law is an argument of `scale_to_av`) and the
 fluxes per aperture in mJy.  `lg`, `exp10` are `np.log10`, `10.**x`.
 -/
-namespace SF
+namespace SF.Plt
 variable {K : Type} [Zero K] [One K] [Add K] [Sub K] [Mul K] [Div K] [Neg K]
   [LT K] [DecidableLT K] [LE K] [DecidableLE K] [DecidableEq K]
 
@@ -213,4 +213,4 @@ def predStored3 (lg : K → K) (aps : List K) (cell : List K) (theta d av k : K)
 def predStored2 (lg : K → K) (cell : List K) (sc av k : K) : K :=
   av * k + sc * (-(two)) + lg (cell.headD 0)
 
-end SF
+end SF.Plt
